@@ -362,7 +362,13 @@ def rule_any(toks):
                    "{ let mut vfound = false; for $p in vit: $X.iter() { if $E { vfound = true; break; } } vfound }")
 
 
-NAMED_RULES = {"Rany": rule_any, "Ritermut": rule_itermut, "Rmapconcat": rule_mapconcat, "Rextend": rule_extend, "Rassert": rule_assert, "Rconcat": rule_concat, "Rbytes": rule_bytes, "R0": rule_R0, "R1": rule_R1, "R5": rule_R5, "R6": rule_R6}
+def rule_position(toks):
+    """R4: `X.iter().position(|p| E)` → index loop with early exit (definition of Iterator::position)"""
+    return rewrite(toks, "$X:chain.iter().position(|$p:ident| $E)",
+                   "{ let mut vpos: Option<usize> = None; for vi in 0..$X.len() { let $p = &$X[vi]; if $E { vpos = Some(vi); break; } } vpos }")
+
+
+NAMED_RULES = {"Rposition": rule_position, "Rany": rule_any, "Ritermut": rule_itermut, "Rmapconcat": rule_mapconcat, "Rextend": rule_extend, "Rassert": rule_assert, "Rconcat": rule_concat, "Rbytes": rule_bytes, "R0": rule_R0, "R1": rule_R1, "R5": rule_R5, "R6": rule_R6}
 
 
 def loops(toks):
